@@ -164,6 +164,8 @@ def run(ctx):
         "loop is reachable in a tuple from which a pause would still be accepted; D4 no request arriving in 'pausing' / "
         "'suspending' moves the engine anywhere but to a terminal state (a pending pause cannot be dropped). Not decided: real timing.")
     d1_raise_iff_interrupted(ctx, rm)
+    # the typestate fixpoint starts every call from a resumable tuple: discharged here
+    q.per_call_reset(ctx, rm, "C08.D2-call-starts-resumable", ["_msg_cache", "_interrupted"])
     d2_d3_typestate(ctx, rm)
 
 
